@@ -636,6 +636,7 @@ def cases_c03(rng, thorough):
         lts = [(idx, ts_items([(rng.choice([0, 1, 2, 3]), rng.random() < 0.3)
                                for _ in range(rng.randint(0, 7))])) for idx in rng.sample([0, 2], 2)]
         cases.append(mux_case([op], G.schedule(rng, lts)))
+    cases += multi_source_cases(rng, 40 if thorough else 10)
     return cases
 
 
@@ -708,6 +709,30 @@ def cases_c02(rng, thorough):
             lts = [(idx, ts_items([(rng.choice([0, 1, 1, 2]), rng.random() < 0.25)
                                    for _ in range(rng.randint(0, 9))])) for idx in (0, 3)]
             cases.append(mux_case([op], G.schedule(rng, lts)))
+    cases += multi_source_cases(rng, 60 if thorough else 15)
+    return cases
+
+
+def multi_source_cases(rng, n):
+    """several pipelines on the sources of one with_store(sources=[...]): shared store
+    manager and state topology, events of the sources interleaved"""
+    cases = []
+    for _ in range(n):
+        k = rng.choice([2, 2, 3])
+        pipes = [G.gen_pipe(rng, 'int', rng.choice([1, 2]), rng.choice([0, 1, 1]))[0] for _ in range(k)]
+        streams = []
+        for si in range(k):
+            lts = rand_lifetimes(rng, rng.choice([1, 2]), 6, reuse=0.3)
+            streams.append([(si, e) for e in G.schedule(rng, lts)])
+        schedule = []
+        pos = [0] * k
+        while any(pos[i] < len(streams[i]) for i in range(k)):
+            i = rng.choice([j for j in range(k) if pos[j] < len(streams[j])])
+            schedule.append(streams[i][pos[i]])
+            pos[i] += 1
+        for si in range(k):
+            cases.append({'pipe': pipes[si], 'mode': 'mux', 'src': [e for (sj, e) in schedule if sj == si],
+                          'multi': {'pipes': pipes, 'schedule': schedule, 'index': si}})
     return cases
 
 
